@@ -62,7 +62,18 @@ PROPS["C18"] = dict(
          "every two-round history of (ab or (ab)c over fixed slices; drained / abandoned untouched / abandoned after 'hn'; 4 close disciplines; closed "
          "before or after the later round) x (every tree shape over 2..4 slice leaves x all assignments of the sequences over {1,2} of length 0..1 "
          "(thorough 0..2 for 2 leaves) x selectors (quick, 4 leaves: <= and > only) x programs over {h,n,r} to depth 3 (thorough 4 for 2..3 leaves)). session non-trivial = a round opened after an earlier "
-         "one was closed, or two trees alive at once, or a mixer over two mixers, or three levels of mixers, or a tie / refused Reset / accepted Reset after a failed one in a nested tree",
+         "one was closed, or two trees alive at once, or a mixer over two mixers, or three levels of mixers, or a tie / refused Reset / accepted Reset after a failed one in a nested tree. "
+         "TYPE HISTORIES (unit type_history, fourth case type, types.go): 'any two input iterators' ranges over iterator TYPES, and a process uses many mixers over many types; whether Reset must succeed is decided by what the two sources of "
+         "THAT mixer implement, whatever sources of other mixers - used earlier or at the same time in the process - implemented. A zoo of 35 iterator types in 16 groups that share their printed name (fmt %T) although they are different types, "
+         "at least one with and one without a Reset method per group: function-local types declared under one name in different functions (by value and by pointer: p_mixer.cursor / *p_mixer.cursor, iter, reader), local types of generic functions "
+         "(p_mixer.box[int], box[string], box[[]int], box[Tag], box[map[Tag]bool]), and same-named types - plain and generic - of the harness package and of its twin sub-package verifharness/p_mixer/twin/p_mixer, which has the same package name "
+         "(*p_mixer.Cursor, Walker, Seq[int], Seq[Tag], Ring[string]; the side that has Reset alternates). A zoo type is a source kind of an ordinary case, so the whole case oracle applies. A type history = 1..4 phases, a phase = 1 case or 2..4 cases "
+         "started together on a barrier (each on its own goroutine with its own mixer and sources: concurrent first use); cases draw their sources from one spelling group (7 in 8; else any zoo type), the other side from the same group, the same type, "
+         "WrapIntSlice, an ordinary kind or any zoo type, inputs as in the rapid unit, programs of up to 10 calls rich in Resets and Reset runs. The histories of one test process run one after the other, so the process as a whole is a long history in "
+         "which every group meets its resettable and non-resettable types in a drawn order (8 / 16 processes per run). A failing history is executed again in FRESH processes (the test binary re-executes itself): alone, then preceded by the earlier phases "
+         "of the process that used types printed like its own, then preceded by everything the process did before; the first that fails there is the reported case, so that the replay (a fresh process) reproduces it; if none does, the complete "
+         "history of the process is reported with the verdict seen. type-history non-trivial = a refused Reset (type without Reset) and a due Reset of ANOTHER type printed alike in one history, in either order or in one concurrent phase, or both inside one mixer "
+         "(classes type_history:*)",
     assumptions=["reference merge written from the C18 statement: head of input 1 is emitted iff input 2 is exhausted or "
                  "(input 1 is not exhausted and selector(head1, head2)); when Next returns ok=false its value is not compared",
                  "Reset with two resettable sources is required to succeed whenever the sources' own Reset calls return nil at that moment - also when an earlier Reset failed because a source's Reset returned an error then "
@@ -72,7 +83,9 @@ PROPS["C18"] = dict(
                  "Init on a used Mixer value must leave nothing of the previous inputs behind (Init 'initializes the mixer')",
                  "a merge over fresh iterators owes nothing to iterators that were used and closed earlier in the process, whatever documented "
                  "Close discipline their creator followed (each created iterator closed at most once by the creator, possibly once more through "
-                 "Mixer.Close forwarding); the nested-tree reference applies the C18 statement to every mixer of the tree"],
+                 "Mixer.Close forwarding); the nested-tree reference applies the C18 statement to every mixer of the tree",
+                 "'when both inputs can be reset' is a statement about the two sources handed to this mixer's Init (do they implement golibs.Reseter, does their Reset return nil): a refused Reset of another mixer over other "
+                 "iterator types - however those types are named or printed - gives no licence to refuse this one"],
     units=[
         dict(name="exhaustive", run="^TestC18Exhaustive$", shards=(16, 16), timeout=(200, 1200)),
         dict(name="rapid", run="^TestC18Rapid$", checks=(10000, 200000), shards=(2, 16), timeout=(200, 1200)),
@@ -86,7 +99,7 @@ PROPS["C18"] = dict(
 LEVEL_TEXT["C18"] = (
     "Generated-input search with an exact oracle: every pair of short sequences over a 3-value alphabet, every selector, every "
     "combination of source kinds and every HasNext/Next/Reset/re-Init program up to a depth bound, plus random long inputs and "
-    "programs, plus histories of several merge trees (mixers of mixers, opened, used and closed over time under every documented Close discipline), are compared call by call with a two-pointer reference merge in which each element is tagged with its origin, and "
+    "programs, plus histories of several merge trees (mixers of mixers, opened, used and closed over time under every documented Close discipline), plus process-long histories of mixers over iterator types that share their printed name but differ in having Reset, are compared call by call with a two-pointer reference merge in which each element is tagged with its origin, and "
     "the selector verifies that it is only consulted about the two current heads. No "
     "counterexample among the cases counted in the evidence; not a proof for longer inputs, deeper programs or other selectors."
 )
